@@ -98,7 +98,7 @@ func EncodeFormat12(m map[uint32]uint16, language uint32, ch Chooser) ([]byte, F
 	sort.Slice(keys, func(i, j int) bool { return keys[i] < keys[j] })
 	var st F12Stats
 	var groups []Group
-	splitMode := ch.Intn("f12split", 3)  // 0 never, 1 sometimes, 2 always
+	splitMode := ch.Intn("f12split", 3)    // 0 never, 1 sometimes, 2 always
 	zeroMode := ch.Intn("f12zero", 3) != 0 // insert zero groups in some gaps
 	for i := 0; i < len(keys); {
 		c := keys[i]
